@@ -47,6 +47,7 @@ fn main() {
     let mut kinds: BTreeMap<String, u64> = BTreeMap::new();
 
     let mut all: Vec<(Vec<ABlock>, AAuth)> = corpus();
+    let mut probes: Vec<Vec<ARule>> = all.iter().map(|_| vec![]).collect();
     let n_corpus = all.len();
     for _ in 0..n {
         let mut g = AGen { d: DGen { rng: rng.fork(), risky: false }, nblocks: 0 };
@@ -77,14 +78,17 @@ fn main() {
                     .collect(),
             ));
         }
+        let ps: Vec<ARule> = (0..2).map(|_| g.probe()).collect();
         all.push((blocks.clone(), a.clone()));
+        probes.push(ps.clone());
         blocks.push(ext);
         all.push((blocks, a));
+        probes.push(ps);
     }
 
     let mut prev: Option<(Outcome, usize)> = None;
     for (i, (blocks, a)) in all.iter().enumerate() {
-        let run = run_auth(blocks, a, limits, &keys, &mut rng);
+        let run = run_auth_q(blocks, a, limits, &keys, &mut rng, &probes[i]);
         for b in blocks {
             for c in &b.checks {
                 *kinds.entry(format!("{:?}x{}", c.kind, c.queries.len())).or_default() += 1;
